@@ -44,6 +44,13 @@ def judge(ctx, res, tpath, what):
                   {"clause": res["clause"], "segment": seg[:200]})
 
 
+def concat(dst, srcs):
+    with open(dst, "w") as out:
+        for s in srcs:
+            with open(s) as f:
+                out.write(f.read())
+
+
 def run(ctx):
     ctx.mc("PriorityMC", ctx.pick("PriorityMC.cfg", "PriorityMCT.cfg"), workers=ctx.pick(4, 8))
     ctx.neg("PriorityMC", "PriorityNeg.cfg", expect="I_StartedPrefix", workers=2)
@@ -58,12 +65,14 @@ def run(ctx):
     for b in behs:
         ctx.count(b, nontrivial=len(b) >= 2)
     ctx.sample(behs[len(behs) // 2])
-    judge(ctx, ctx.validate("PriorityTrace", "PriorityTrace.cfg", tpath), tpath, "replay of TLC behaviours")
     tpath2 = os.path.join(ctx.run, "trace-random.ndjson")
-    n = ctx.pick(200, 5000)
+    n = ctx.pick(150, 5000)
     ctx.driver(binary, "TestVerifC39Random", {"VERIF_OUT": tpath2, "VERIF_N": n})
     ctx.count({"random_runs": n, "seed": ctx.seed}, n=n)
-    judge(ctx, ctx.validate("PriorityTrace", "PriorityTrace.cfg", tpath2), tpath2, "random input sequences seed %d" % ctx.seed)
+    tall = os.path.join(ctx.run, "trace-all.ndjson")
+    concat(tall, [tpath, tpath2])
+    judge(ctx, ctx.validate("PriorityTrace", "PriorityTrace.cfg", tall), tall,
+          "replayed TLC behaviours + random input sequences (seed %d)" % ctx.seed)
     ctx.cov["rule"] = ("behaviours = edge cover of the TLC state graph of Priority.tla (BFS prefix + one transition), executed step by "
                        "step on the real priority balancer; non-trivial = >= 2 steps; distinct by step sequence; plus seeded random "
                        "input sequences of 10-60 steps over up to 5 children")
